@@ -1,7 +1,9 @@
 /-
-C05 — negation witnesses for floats (`Model/ShrinkFit.lean`), listed in known_findings.txt:
-`float-explicit-width-ignores-min-max`, `float-shrink-to-fit-ignores-own-extras`; and for the checker of
-used values (`Model/UsedCheck.lean`): `first-line-overflow-margin-hack`, `empty-fragment-below-page-bottom`.
+C05 — floats (`Model/ShrinkFit.lean`): the two former negation witnesses
+`float-explicit-width-ignores-min-max` and `float-shrink-to-fit-ignores-own-extras` were repaired in /repo
+(802b9d8, 8719f13; `fixed:` lines in known_findings.txt) and are kept here as *regression* theorems stating the
+now-correct behaviour on the same inputs.  Negation witness for the checker of used values
+(`Model/UsedCheck.lean`): `first-line-overflow-margin-hack`, `empty-fragment-below-page-bottom`.
 -/
 import WpModel.Model.ShrinkFit
 import WpModel.Model.UsedCheck
@@ -18,25 +20,25 @@ private def widthOfResult (r : Except BErr ABox) : Option Rat :=
   | .ok b => b.w
   | .error _ => none
 
-/-- `float: left; width: 80px; max-width: 50px`: the used width stays 80 — `float_layout` reaches the
-decorated `float_width` only for `width: auto`, so `min-width` and `max-width` are never applied to a float with a
-specified width (the same style on an inline-block gives 50). Clause (c) is false of floats. -/
-theorem float_ignores_max_width :
-    widthOfResult (floatLayoutWidth 100 30 30 { plain with w := some 80, maxW := .fin 50 }) = some 80 ∧
+/-- Regression (`fixed: float-explicit-width-ignores-min-max`).  `float: left; width: 80px; max-width: 50px`:
+the used width is 50, as for an inline-block with the same style (it stayed 80 while `float_layout` reached
+the decorated `float_width` only for `width: auto`). -/
+theorem float_honours_max_width :
+    widthOfResult (floatLayoutWidth 100 30 30 { plain with w := some 80, maxW := .fin 50 }) = some 50 ∧
     widthOfResult (inlineBlockLayoutWidth 100 30 30 { plain with w := some 80, maxW := .fin 50 }) = some 50 := by
   decide +kernel
 
-/-- …and `float: left; width: 20px; min-width: 50px` stays 20. -/
-theorem float_ignores_min_width :
-    widthOfResult (floatLayoutWidth 100 30 30 { plain with w := some 20, minW := 50 }) = some 20 := by
+/-- …and `float: left; width: 20px; min-width: 50px` is 50 wide (it stayed 20). -/
+theorem float_honours_min_width :
+    widthOfResult (floatLayoutWidth 100 30 30 { plain with w := some 20, minW := 50 }) = some 50 := by
   decide +kernel
 
-/-- `float: left; padding: 0 10px` around a long text (min-content 30, max-content 230) in a 100px
-containing block: `shrink_to_fit` receives the containing block width 100 instead of the available 80, the
-content box is 100 wide and the margin box 120: the float is wider than its containing block although its
-content could wrap (the inline-block gets 80). -/
-theorem float_overflows_with_padding :
-    widthOfResult (floatLayoutWidth 100 30 230 { plain with pl := 10, pr := 10 }) = some 100 ∧
+/-- Regression (`fixed: float-shrink-to-fit-ignores-own-extras`).  `float: left; padding: 0 10px` around a
+long text (min-content 30, max-content 230) in a 100px containing block: `shrink_to_fit` receives the
+available 80, the content box is 80 wide and the margin box 100 — the float fits, like the inline-block
+(it used to get the whole 100 and overflow by its paddings). -/
+theorem float_fits_with_padding :
+    widthOfResult (floatLayoutWidth 100 30 230 { plain with pl := 10, pr := 10 }) = some 80 ∧
     widthOfResult (inlineBlockLayoutWidth 100 30 230 { plain with pl := 10, pr := 10 }) = some 80 := by
   decide +kernel
 
